@@ -14,6 +14,16 @@ CHECKS = {
         note="Bounded: names {f1,f2}x{a.txt,b.txt}, depth per harness in the evidence file; CPython/pydantic trusted.",
         design_ref="DESIGN.md §4 C15",
     ),
+    "C07": dict(
+        technique="exhaustive product (rule configurations x packets) on real AccessControlList vs reference; BFS over add/remove via API, request tree, action classes",
+        text="Every single rule of a 3456-rule field product and every ordered pair (thorough: triple) of a 12-rule covering set at every "
+             "assignment to the first/second/last slot, under both implicit actions, is evaluated against all 81 packets of a covering set on "
+             "real AccessControlList objects; verdict, deciding slot and all hit counters are compared with an independent integer-arithmetic "
+             "reference. Add/remove sequences are explored by BFS through the Python API, the request tree of a real Router and the ACL action "
+             "classes against a reference slot list; Router.from_config placement is compared too.",
+        note="Covering set of addresses/ports, not all 2^32; port 0 (PORT_LOOKUP NONE) is read as 'unspecified'.",
+        design_ref="DESIGN.md §4 C07",
+    ),
 }
 
 NOT_BUILT_REASON = "no check registered yet in this revision (model-checking harness planned in DESIGN.md §4; not claimed until it exists)"
